@@ -733,6 +733,134 @@ tie_catalog_spatial_test = _tie_ce("spatial_test", "srcsm_catalog_spatial_test",
 tie_catalog_pseudolikelihood_test = _tie_ce("pseudolikelihood_test", "srcsm_catalog_pseudolikelihood_test", True)
 
 
+# ----------------------------------------------------------------------------- C14 write_ascii
+def tie_write_ascii(rng, n):
+    """the real `CSEPCatalog.write_ascii` into a file that may already hold records, for all combinations of write_header /
+    write_empty / append, an id column that exists (`'id'`: bytes ids) or not (ids written empty), catalog_id None / int,
+    0-4 events, against `SrcSM.write_ascii`: the records of the file after the call (read back with csv.reader; float cells
+    compared as exact values — their text is the csv writer's layer —, the time text of each epoch is the real one)"""
+    import csv, os, tempfile, shutil
+    import numpy
+    from csep.core.catalogs import CSEPCatalog
+    from csep.utils.time_utils import epoch_time_to_utc_datetime
+    drv, exp = Driver(), []
+    d = tempfile.mkdtemp(prefix="verif_wa_tie_")
+    isnum = lambda t: t[:1].isdigit() or (t[:1] == "-" and t[1:2].isdigit())
+
+    def show(recs, ncols_float=(0, 1, 2, 4)):
+        out = []
+        for r in recs:
+            cells = []
+            for k, cc in enumerate(r):
+                if k in ncols_float and len(r) == 7 and r[0] != "lon" and isnum(cc):
+                    try:
+                        cc = str(Fraction(float(cc)))
+                    except ValueError:
+                        pass
+                cells.append(cc)
+            out.append(",".join(cells))
+        return ";".join(out) or "-"
+    try:
+        for k in range(max(24, n // 8)):
+            nev = rng.choice([0, 0, 1, 2, 4])
+            evs = []
+            for j in range(nev):
+                ms = rng.choice([0, 1, 999, 86399999, rng.randrange(-10 ** 12, 2 * 10 ** 12), 1262304000500])
+                evs.append((f"ev{rng.randrange(1000)}x{j}", ms, rng.choice([35.25, -12.125, rng.uniform(-90, 90)]),
+                            rng.choice([-120.5, 179.75, rng.uniform(-180, 180)]), rng.choice([0.0, 10.0, rng.uniform(0, 700)]),
+                            rng.choice([4.95, 5.0, rng.uniform(2, 9)])))
+            cat = CSEPCatalog(data=evs, catalog_id=rng.choice([None, 0, 7, 123]))
+            wh, we, ap = rng.random() < 0.6, rng.random() < 0.5, rng.random() < 0.5
+            id_col = rng.choice(["id", "id", "event_id", "nosuch"])
+            hasid = id_col in cat.catalog.dtype.names
+            path = os.path.join(d, f"w{k}.csv")
+            old = [] if rng.random() < 0.4 else [["lon", "lat", "mag", "time_string", "depth", "catalog_id", "event_id"],
+                                                 ["1.5", "2.5", "3.5", "1970-01-01T00:00:00", "4.5", "", "old1"]][:rng.choice([1, 2])]
+            with open(path, "w", newline="") as f:
+                csv.writer(f).writerows(old)
+            try:
+                cat.write_ascii(path, write_header=wh, write_empty=we, append=ap, id_col=id_col)
+                with open(path, newline="") as f:
+                    want = "ok " + show(list(csv.reader(f)))
+            except Exception as e:
+                want = "err " + type(e).__name__
+            os.unlink(path)
+            tm = lambda ms: str(epoch_time_to_utc_datetime(ms).replace(tzinfo=None)).replace(" ", "T")
+            ev_t = ";".join(",".join([str(Fraction(float(cat.catalog["longitude"][j]))), str(Fraction(float(cat.catalog["latitude"][j]))),
+                                      str(Fraction(float(cat.catalog["magnitude"][j]))), str(int(cat.catalog["origin_time"][j])),
+                                      str(Fraction(float(cat.catalog["depth"][j]))), cat.catalog["id"][j].decode(),
+                                      tm(int(cat.catalog["origin_time"][j]))]) for j in range(nev)) or "-"
+            exp.append((dict(nev=nev, wh=wh, we=we, ap=ap, id_col=id_col, old=len(old)), want))
+            drv.ask(f"srcsm_write_ascii {show(old)} {ev_t} {'none' if cat.catalog_id is None else cat.catalog_id} "
+                    f"{int(wh)} {int(we)} {int(ap)} {int(hasid)}")
+    finally:
+        shutil.rmtree(d, ignore_errors=True)
+    out = drv.run()
+    return len(exp), [(c, a[:240], b[:240]) for (c, a), b in zip(exp, out) if a != b]
+
+
+def tie_catalog_to_dict(rng, n):
+    """the real `CSEPCatalog.to_dict()` on catalogs with extra attributes (callables, underscore names, names that collide
+    after the underscore is dropped, a region — which has its own to_dict —, an entry `catalog` put into `__dict__`) against
+    `SrcSM.catalog_to_dict`: the keys of the result in order, for each key WHICH object it holds (the attribute itself, the
+    result of its to_dict, or the rows), the rows with their bytes items decoded"""
+    import numpy
+    from csep.core import regions
+    from csep.core.catalogs import CSEPCatalog
+    drv, exp = Driver(), []
+
+    class WithToDict:
+        def __init__(self, tag):
+            self.tag = tag
+
+        def to_dict(self):
+            return {"made-by": self.tag}
+    for k in range(max(24, n // 8)):
+        nev = rng.choice([0, 1, 3])
+        evs = [(f"id{j}", 1000 * j, 1.0 + j, 2.0, 5.0, 4.5) for j in range(nev)]
+        cat = CSEPCatalog(data=evs, catalog_id=rng.choice([None, 3]), name=rng.choice([None, "n"]))
+        if rng.random() < 0.4:
+            cat.region = regions.CartesianGrid2D.from_origins(numpy.array([(2.0, 1.0)]), dh=1.0)
+        for _ in range(rng.choice([0, 1, 3])):
+            nm = rng.choice(["extra", "_extra", "_hidden", "fn", "_fn", "obj", "name2", "_name2", "_name"])
+            val = rng.choice([lambda: 1, 5, "text", WithToDict(nm), [1, 2], None])
+            cat.__dict__[nm] = val
+        if rng.random() < 0.15:
+            cat.__dict__["catalog"] = 7
+        toks, objs = [], {}
+        for i, (kk, v) in enumerate(cat.__dict__.items()):
+            t = ("c" if callable(v) else "t" if hasattr(v, "to_dict") else "p") + str(i)
+            toks.append(f"{kk}={t}")
+            objs[t] = v
+        conv = {}
+        orig_td = {}
+        rows = [[("b:" + it.decode() if isinstance(it, bytes) else "o:" + repr(it).replace(",", "_").replace("/", "_").replace(";", "_").replace("=", "_"))
+                 for it in line] for line in cat.catalog.tolist()]
+        try:
+            r = cat.to_dict()
+        except Exception as e:
+            continue
+        parts = []
+        ok = True
+        for kk, v in r.items():
+            if kk == "catalog" and isinstance(v, list) and (not v or isinstance(v[0], list)) and kk == list(r)[[*r].index("catalog")] \
+                    and all(isinstance(x, list) for x in v):
+                rr = [[("s:" + it if isinstance(it, str) else "o:" + repr(it).replace(",", "_").replace("/", "_").replace(";", "_").replace("=", "_"))
+                       for it in line] for line in v]
+                parts.append("catalog=[" + "/".join(",".join(l) for l in rr) + "]")
+                continue
+            # which object is it: among the attributes stored under this name (underscore dropped), the one it IS
+            cands = [(t, objs[t]) for (k0, t) in (x.split("=") for x in toks) if (k0[1:] if k0.startswith("_") else k0) == kk]
+            tok = next((t for t, o in reversed(cands) if o is v), None)
+            if tok is None:
+                tok = next(("T" + t for t, o in reversed(cands) if t.startswith("t") and o.to_dict() == v), "?")
+            parts.append(f"{kk}={tok}")
+        exp.append((dict(keys=[t.split("=")[0] for t in toks]), "ok " + (";".join(parts) or "-")))
+        drv.ask(f"srcsm_catalog_to_dict {';'.join(toks) or '-'} {'/'.join(','.join(l) for l in rows) or '-'}")
+    out = drv.run()
+    return len(exp), [(c, a[:300], b[:300]) for (c, a), b in zip(exp, out) if a != b]
+
+
 # ----------------------------------------------------------------------------- C19 ndk record loop
 def tie_ndk_loop(rng, n):
     """the real `readers.ndk` on generated files (records of harness/c19.py `gen_ndk`, some broken in the ways of its
@@ -1104,6 +1232,8 @@ TIES = {
     "catalog_pseudolikelihood_test": tie_catalog_pseudolikelihood_test,
     "catalog_magnitude_test": tie_catalog_magnitude_test,
     "ndk_loop": tie_ndk_loop,
+    "write_ascii": tie_write_ascii,
+    "catalog_to_dict": tie_catalog_to_dict,
     "catalog_number_test": tie_catalog_number_test,
     "get_expected_rates": tie_get_expected_rates,
     "binary_test_loop": tie_binary_test_loop(False),
